@@ -151,11 +151,13 @@ pub fn run_jobs(jobs: &[JobSpec], opts: &SupOpts) -> Vec<JobOutcome> {
     let n = jobs.len();
     let results: Arc<Mutex<Vec<Option<JobOutcome>>>> = Arc::new(Mutex::new(vec![None; n]));
     let next = Arc::new(AtomicUsize::new(0));
+    let deaths = Arc::new(AtomicUsize::new(0));
     let jobs: Arc<Vec<JobSpec>> = Arc::new(jobs.to_vec());
     let mut handles = vec![];
     for _ in 0..opts.workers.min(n.max(1)) {
         let results = results.clone();
         let next = next.clone();
+        let deaths = deaths.clone();
         let jobs = jobs.clone();
         let opts = opts.clone();
         handles.push(std::thread::spawn(move || {
@@ -165,7 +167,15 @@ pub fn run_jobs(jobs: &[JobSpec], opts: &SupOpts) -> Vec<JobOutcome> {
                 if i >= jobs.len() {
                     break;
                 }
+                // after many deaths the remaining jobs are not started (the check is already failing)
+                if deaths.load(Ordering::SeqCst) >= 24 {
+                    results.lock().unwrap()[i] = Some(JobOutcome::Done(JobResult { notes: vec!["skipped: too many worker deaths".into()], ..Default::default() }));
+                    continue;
+                }
                 let out = run_one(&mut w, &jobs[i], &opts);
+                if matches!(out, JobOutcome::Died { .. }) {
+                    deaths.fetch_add(1, Ordering::SeqCst);
+                }
                 results.lock().unwrap()[i] = Some(out);
             }
             if let Some(mut w) = w {
